@@ -312,12 +312,17 @@ PROP = ["C00"]
 def lean_stage(prop: str, modules: list[str], theorems: list[str], tier: str, res: Result) -> dict:
     info: dict = {"modules": modules, "theorems": {}}
     ok, log = lake_build(modules)
+    if not ok:  # a concurrent build or a half-written .olean must not look like a broken theorem: retry once
+        time.sleep(2)
+        ok, log = lake_build(modules)
     info["build_ok"] = ok
     if not ok:
         info["build_log"] = log
     hits = static_audit()
     info["forbidden_hits"] = hits
     ax = axiom_audit(prop, modules, theorems) if ok else {t: None for t in theorems}
+    if ok and any(a is None for a in ax.values()):
+        ax = axiom_audit(prop, modules, theorems)
     for t, a in ax.items():
         good = a is not None and set(a) <= ALLOWED_AXIOMS
         info["theorems"][t] = {"axioms": a, "ok": good}
